@@ -253,7 +253,7 @@ def install2(R: Registry):
                ensures=BE_X + [("C07", "ismod(self, module)")])
     R.contract(M + "MessageManager.send_client_info", tags="C03 C06",
                params=dict(module="Module"),
-               requires=BASE_REQ + ["ismod(self, module)"],
+               requires=BASE_REQ + ["module != null and isascii(module.name) and len(module.name) <= 32"],
                modifies=BM, ensures=BASE_ENS)
     R.contract(M + "MessageManager.remove_module", tags="C07",
                params=dict(module="Module"),
@@ -505,6 +505,12 @@ def install5(R: Registry):
                    "forall('m:Module', m.mod_id == old(m.mod_id))",
                ])})
 
+    R.define("bad_request", "mm: MessageManager, module: Module, data: MessageData, hdr: MessageHeader",
+             "let('r', ite(typeis(data, MDF_CONNECT_V2), cast(data, MDF_CONNECT_V2).mod_id, hdr.src_mod_id), "
+             "let('u', ite(typeis(data, MDF_CONNECT_V2), cast(data, MDF_CONNECT_V2).allow_multiple == 0, module.unique), "
+             "r != 0 and (r < 1 or r > 100)))",
+             "requests that must always be refused: an explicit id outside 1..100 (a clash with an incumbent is covered by the uniqueness clauses, "
+             "stated over the table as it is when the decision is made - the incumbent may depart while the request is processed)")
     R.define("rid", "msg: Message", "ite(typeis(msg.data, MDF_CONNECT_V2), cast(msg.data, MDF_CONNECT_V2).mod_id, msg.header.src_mod_id)",
              "the module id a connection request asks for")
     R.define("subs_shrink_x", "mm: MessageManager, x: Module",
@@ -543,6 +549,8 @@ def install5(R: Registry):
                    ("C06 C07", "implies(not result and not old(module.connected), not ismod(self, module) and module.conn.closed)", "a refused request is closed"),
                    ("C19", "acks == old(acks) and ack_copies == old(ack_copies)"),
                    ("C06", "implies(result and module.is_logger, self.logger_modules[module])"),
+                   ("C06", "implies(not old(module.connected) and old(bad_request(self, module, msg.data, msg.header)), not result)",
+                    "a request that would break id uniqueness or names an id outside the user range is refused"),
                ],
                loops={1: dict(invariant=[
                    "wf_top(self) and table_shrinks(self) and subs_shrink(self) and departed(self) and stays_if_closed(self) and counts_monotone(self) and top_gids_untouched()",
@@ -558,3 +566,64 @@ def install5(R: Registry):
                    "forall('m:Module', implies(old(ismod(self, m)), exists('j:Int', 0 <= j and j < len(seq) and seq[j] == m)))",
                    "self.next_dynamic_mod_id_offset == old(self.next_dynamic_mod_id_offset)",
                ])})
+
+
+def install6(R: Registry):
+    """sixth part: read_message, process_message (C01 C03 C05 C19), statistics (C18)"""
+    TOP_REQ, TOP_ENS, TOP_MOD = R.TOP_REQ, R.TOP_ENS, R.TOP_MOD
+    IDENT = ["Module.mod_id", "Module.unique", "Module.pid", "Module.name", "Module.is_logger", "Module.is_daemon", "Module.connected"]
+    RD_MOD = TOP_MOD + ["MessageManager.hdr_obj", "MessageManager.data_obj"]
+    R.contract(M + "MessageManager.read_message", tags="C03 C05 C07", returns="Bool",
+               params=dict(sock="Socket"),
+               requires=TOP_REQ + ["dom(self.modules)[sock]", "self.modules[sock] != self.mm_module"],
+               modifies=RD_MOD,
+               ensures=TOP_ENS + [
+                   ("C03 C05", "implies(result, 0 <= self.hdr_obj.num_data_bytes and self.hdr_obj.num_data_bytes <= 1048576)",
+                    "a frame is only processed when its declared payload length fits the receive buffer"),
+                   ("C03", "implies(result, self.modules == old(self.modules) and self.subscriptions == old(self.subscriptions) and self.logger_modules == old(self.logger_modules) and "
+                           "acks == old(acks) and ack_copies == old(ack_copies) and gid_next == old(gid_next) and forall('m:Module', m.msg_count == old(m.msg_count)))",
+                    "reading a frame changes nothing but the receive buffers"),
+                   ("C07", "implies(not result, not dom(self.modules)[sock])", "a short read (peer closed inside a frame) or an invalid length drops that client"),
+                   ("C19", "acks == old(acks) and ack_copies == old(ack_copies)"),
+               ],
+               raises={"ConnectionError": [
+                   ("C03", "wf_top(self) and self.modules == old(self.modules) and self.subscriptions == old(self.subscriptions) and self.logger_modules == old(self.logger_modules)"),
+                   ("C03", "acks == old(acks) and ack_copies == old(ack_copies) and gid_next == old(gid_next) and delivered == old(delivered) and notice == old(notice) and stray == old(stray) and closed_notices == old(closed_notices)"),
+                   ("C03", "forall('m:Module', m.msg_count == old(m.msg_count)) and forall('c:Socket', c.closed == old(c.closed))"),
+               ]})
+
+    # ------------------------------------------------------------------ process_message
+    ACKABLE = "(15, 16, 85, 86)"
+    R.define("some_forward", "mm: MessageManager, g0: Int, h: MessageHeader, n: Int",
+             "exists('g:Int', g0 <= g and g < gid_next and fwd_hdr[g] == h and fwd_data[g] != null and nbytes(fwd_data[g]) == n and fwd_data[g].base == mm.data_view)",
+             "a delivery was made with the received header object and a view of exactly n bytes of the receive buffer")
+    R.contract(M + "MessageManager.process_message", tags="C01 C03 C05 C06 C07 C19",
+               params=dict(src_module="Module"),
+               requires=TOP_REQ + [("C06", "ids_ok(self)"), "ismod(self, src_module)", "src_module != self.mm_module",
+                                   ("C05", "0 <= self.hdr_obj.num_data_bytes and self.hdr_obj.num_data_bytes <= 1048576")],
+               modifies=RD_MOD + IDENT + ["MessageManager.next_dynamic_mod_id_offset", "Module.subs"],
+               ensures=[(t, c.replace("subs_shrink(self)", "True").replace("counts_monotone(self)", "forall('m:Module', m.msg_count >= old(m.msg_count))")) for t, c in TOP_ENS] + [
+                   ("C06", "ids_ok(self)"),
+                   ("C06", "others_identity_same(self, src_module)"),
+                   ("C01 C02", "forall('m:Module', implies(m != src_module, m.subs == old(m.subs)))", "only the sender's own subscription set can change"),
+                   # --- C19
+                   ("C19", "forall('m:Module', implies(m != src_module, acks[m] == old(acks[m])))", "acknowledgements go to the sender only"),
+                   ("C19", f"implies(old(self.hdr_obj.msg_type) in {ACKABLE} and ismod(self, src_module) and not src_module.conn.closed, acks[src_module] == old(acks[src_module]) + 1)",
+                    "every SUBSCRIBE / UNSUBSCRIBE / PAUSE / RESUME is answered by exactly one ACKNOWLEDGE, whether or not it changed anything"),
+                   ("C19", "acks[src_module] <= old(acks[src_module]) + 1 and acks[src_module] >= old(acks[src_module])"),
+                   ("C19", f"implies(old(self.hdr_obj.msg_type) not in {ACKABLE} and old(self.hdr_obj.msg_type) != 13 and old(self.hdr_obj.msg_type) != 4, acks == old(acks) and ack_copies == old(ack_copies))",
+                    "data frames, MODULE_READY, CLIENT_SET_NAME, DISCONNECT are never acknowledged"),
+                   ("C19", "implies((old(self.hdr_obj.msg_type) == 13 or old(self.hdr_obj.msg_type) == 4) and old(src_module.connected), acks == old(acks) and ack_copies == old(ack_copies))",
+                    "the CONNECT that follows an accepted CONNECT_V2 is not acknowledged again"),
+                   ("C19 C06", "implies((old(self.hdr_obj.msg_type) == 13 or old(self.hdr_obj.msg_type) == 4) and not old(src_module.connected) and old(bad_request(self, src_module, self.data_obj, self.hdr_obj)), acks == old(acks) and not ismod(self, src_module))",
+                    "a refused connection request is not acknowledged, and is closed"),
+                   ("C19", "implies((old(self.hdr_obj.msg_type) == 13 or old(self.hdr_obj.msg_type) == 4) and not old(src_module.connected) and ismod(self, src_module) and src_module.connected and not src_module.conn.closed, acks[src_module] == old(acks[src_module]) + 1)",
+                    "an accepted handshake is acknowledged exactly once"),
+                   ("C19", f"implies((old(self.hdr_obj.msg_type) in {ACKABLE} or ((old(self.hdr_obj.msg_type) == 13 or old(self.hdr_obj.msg_type) == 4) and not old(src_module.connected) and src_module.connected)) and acks[src_module] == old(acks[src_module]) + 1, "
+                            "forall('m:Module', implies(self.logger_modules[m] and not m.conn.closed and (m != src_module or old(self.logger_modules[m])), ack_copies[m] == old(ack_copies[m]) + 1)))",
+                    "each acknowledgement is also copied to every logger module"),
+                   # --- C01 / C05: the default branch forwards the received header and exactly the declared payload bytes
+                   ("C01 C05", "implies(not is_control(old(self.hdr_obj.msg_type)), some_forward(self, old(gid_next), self.hdr_obj, old(self.hdr_obj.num_data_bytes)) and self.hdr_obj == old(self.hdr_obj))",
+                    "every non-control type is forwarded with the received header and payload view"),
+               ])
+    R.define("is_control", "t: Int", "t in (13, 4, 14, 15, 16, 85, 86, 34, 26)")
